@@ -14,7 +14,7 @@ var (
 	c11Iface    = []string{"plain", "embeds", "otherpkg"}
 	c11Impl     = []string{"valuerecv", "ptrrecv", "none", "itself", "wider", "own-methods-only"}
 	c11Conc     = []string{"T", "*T"}
-	c11Provided = []string{"func", "struct", "value", "param", "field", "nested-in-bind-set", "outer-only", "sibling-only"}
+	c11Provided = []string{"func", "struct", "value", "param", "field", "nested-in-bind-set", "outer-only", "sibling-only", "outer-only-inline"}
 )
 
 // bindProgram builds one point of the binding matrix. It returns nil for inexpressible points.
@@ -90,7 +90,7 @@ func bindProgramX(ifk, impl, conc, how, nI, nC int, noBinding bool, depth, order
 	var concItems []*ir.Item
 	var params []ir.Param
 	switch how {
-	case 0, 5, 6, 7:
+	case 0, 5, 6, 7, 8:
 		concItems = []*ir.Item{ir.FuncItem(&ir.Func{Pkg: p, Name: "PConc", Out: concT})}
 	case 1:
 		concItems = []*ir.Item{ir.StructItem(named, "*"), ir.FuncItem(&ir.Func{Pkg: p, Name: "PX", Out: x})}
@@ -157,6 +157,9 @@ func bindProgramX(ifk, impl, conc, how, nI, nC int, noBinding bool, depth, order
 		// binding alone in its own set, the concrete type only in the enclosing Build call
 		bs := &ir.Set{Pkg: p, Name: "BindSet", Items: []*ir.Item{bind}}
 		inj.Items = append(append([]*ir.Item{ir.SetRef(bs)}, concItems...), consumers...)
+	case how == 8:
+		// binding alone in an anonymous inline set, the concrete type only in the enclosing Build call
+		inj.Items = append(append([]*ir.Item{ir.InlineSet(&ir.Set{Pkg: p, Items: []*ir.Item{bind}})}, concItems...), consumers...)
 	case how == 7:
 		bs := &ir.Set{Pkg: p, Name: "BindSet", Items: []*ir.Item{bind}}
 		cs := &ir.Set{Pkg: p, Name: "ConcSet", Items: concItems}
@@ -235,8 +238,15 @@ func checkC11(c *h.Check) {
 		}
 		cases = append(cases, cs)
 	})
+	for _, sc := range noCallSpecs() {
+		prog, _ := sc.spec.Build()
+		cs := caseFromProgram("C11/"+sc.id, prog, true, map[string]bool{"wiring": true})
+		if c.NoteProgram(cs.Files) {
+			cases = append(cases, cs)
+		}
+	}
 	results := c.JudgeAll(cases)
-	stdCoverage(c, cases, results, "full product: interface {plain, embedding another, from another package} x implementation {value receiver, pointer receiver, none, the interface itself, a wider interface} x bound type {T, *T} x how the concrete type is provided {function, struct provider, value, injector parameter, field, nested set inside the binding's set, enclosing call only, sibling set only} x consumers of I {1,2} x consumers of C {0,1,2} x {binding, no binding} x nesting depth of the binding's set below wire.Build {0..3} x visiting order {interface first, concrete type first, one consumer of both}; a second binding in the same set {none, valid, concrete type unprovided listed after / before the first}; wire imported plainly, under an alias or with a dot import; implementation kinds include a type that declares the interface's own methods but not those of an embedded interface. Oracle: rejected exactly when the method-set rule fails, C is I, or C is not provided in the binding's own set; accepted programs are compiled and run and every consumer of I and C must receive the same instance (pointer identity unified), C's source running once; without a binding the interface is missing. Distinct = distinct rendered source.")
+	stdCoverage(c, cases, results, "injectors that need no provider call and return an interface bound to one of up to three arguments that all implement it; full product: interface {plain, embedding another, from another package} x implementation {value receiver, pointer receiver, none, the interface itself, a wider interface} x bound type {T, *T} x how the concrete type is provided {function, struct provider, value, injector parameter, field, nested set inside the binding's set, enclosing call only, sibling set only} x consumers of I {1,2} x consumers of C {0,1,2} x {binding, no binding} x nesting depth of the binding's set below wire.Build {0..3} x visiting order {interface first, concrete type first, one consumer of both}; a second binding in the same set {none, valid, concrete type unprovided listed after / before the first}; wire imported plainly, under an alias or with a dot import; implementation kinds include a type that declares the interface's own methods but not those of an embedded interface. Oracle: rejected exactly when the method-set rule fails, C is I, or C is not provided in the binding's own set; accepted programs are compiled and run and every consumer of I and C must receive the same instance (pointer identity unified), C's source running once; without a binding the interface is missing. Distinct = distinct rendered source.")
 	c.Coverage["model_verdict_classes"] = kinds.summary()
 	c.Coverage["explorer"] = map[string]interface{}{"executions": st.Executions, "mode": "full product"}
 	sampleCase(c, cases, results)
